@@ -82,8 +82,19 @@ def run_contract(E, contract, max_paths=4000):
         except PyRaise as e:
             out = Outcome("raise", e.exc)
         goals = contract.post(E, st, out)
+        for gname, g in E.path.side_goals:
+            goals[gname] = sym.And(goals[gname], g) if gname in goals else g
         return ("done", (out, goals, st))
-    return E.explore(thunk, max_paths=max_paths)
+    paths = E.explore(thunk, max_paths=max_paths)
+    # arbitrary-iteration paths of invariant-verified loops carry only their side goals
+    for p in paths:
+        if p.kind == "loopcut":
+            goals = {}
+            for gname, g in p.side_goals:
+                goals[gname] = sym.And(goals[gname], g) if gname in goals else g
+            p.value = (Outcome("return", None), goals, None)
+            p.abstract = True
+    return paths
 
 
 def verify(run, E, contract, prefix=None, tier=None, crosscheck=True, known=None, skip=(), only=None):
@@ -213,6 +224,8 @@ def cover_paths(run, E, contract, paths):
             nat, ncl = contract.native_eval(inputs)
         except Exception as ex:  # concretisation problems are not verdicts
             run.notes.append("cover of %s could not be replayed: %r" % (contract.name, ex))
+            continue
+        if nat[0] == "skip":
             continue
         run.crosscheck["inputs"] += 1
         sym_kind = out.kind
